@@ -281,6 +281,25 @@ async fn quiesce(st: &mut St, r: &mut Remote, min_wait: Duration, max_wait: Dura
     }
 }
 
+/// R opens a substream and proposes `name`; `stall`: it goes silent after the multistream header.
+fn spawn_remote_open(rem: &mut Remote, tr: u64, name: String, stall: bool) {
+    let mut ctl = rem.control.clone();
+    let list = if stall { &mut rem.bg } else { &mut rem.acts };
+    list.push(tokio::spawn(async move {
+        let Ok(mut s) = ctl.open_stream().await else { return };
+        if stall {
+            let _ = s.write_all(b"\x13/multistream/1.0.0\n").await;
+            let _ = s.flush().await;
+            tokio::time::sleep(Duration::from_secs(60)).await;
+            drop(s);
+        } else {
+            let neg = negotiate(tr, s, true, vec![name]).await;
+            tokio::time::sleep(Duration::from_millis(60)).await;
+            drop(neg);
+        }
+    }));
+}
+
 pub fn run_loop(case: &mut [u64]) -> Vec<u64> {
     if case.len() < 7 {
         return vec![0];
@@ -302,6 +321,10 @@ pub fn run_loop(case: &mut [u64]) -> Vec<u64> {
         }
         // b = 3 waits for the open timeout, b = 4 leaves the negotiation pending: the latter in hold cases only
         if (op == 1 || op == 2) && ((hold && b == 3) || (!hold && b == 4)) {
+            return vec![0];
+        }
+        // races: an inbound substream only together with "every handle dropped"; in hold cases only that pair
+        if op == 9 && (b >= 16 || if hold { b != 0 } else { b & 8 != 0 && b & 4 == 0 }) {
             return vec![0];
         }
     }
@@ -490,7 +513,6 @@ pub fn run_loop(case: &mut [u64]) -> Vec<u64> {
                     let _ = st.txs[p].try_send(InnerTransportEvent::DialFailure { peer, addresses: Vec::new() });
                 }
             }
-            let mut racing = false;
             match op {
                 1 => {
                     if ai >= n {
@@ -531,36 +553,50 @@ pub fn run_loop(case: &mut [u64]) -> Vec<u64> {
                         }
                     }
                 }
-                2 | 9 => {
+                2 => {
                     if st.state != 0 || !rem.up {
                         rc = 2;
                     } else {
-                        if op == 9 {
+                        let stall = b == 3 || b == 4;
+                        if b == 3 {
+                            min_wait = OPEN_TIMEOUT + Duration::from_millis(150);
+                        }
+                        spawn_remote_open(&mut rem, tr, name_of_code(a, n), stall);
+                    }
+                }
+                9 => {
+                    // several things before the loop is polled again; b = 0 means 12
+                    let mask = if b == 0 { 12 } else { b };
+                    if st.state != 0 || !rem.up {
+                        rc = 2;
+                    } else {
+                        if mask & 1 != 0 {
+                            if let Some(h) = st.handles.iter_mut().flatten().next() {
+                                let _ = h.force_close();
+                            }
+                        }
+                        if mask & 8 != 0 {
+                            spawn_remote_open(&mut rem, tr, name_of_code(a, n), false);
+                        }
+                        if mask & 4 != 0 {
                             for h in st.handles.iter_mut() {
                                 *h = None;
                             }
-                            racing = true;
                         }
-                        let mut ctl = rem.control.clone();
-                        let name = name_of_code(a, n);
-                        let stall = op == 2 && (b == 3 || b == 4);
-                        if op == 2 && b == 3 {
-                            min_wait = OPEN_TIMEOUT + Duration::from_millis(150);
+                        // let R's stream reach A's socket while the loop is not polled
+                        for _ in 0..6 {
+                            turn().await;
                         }
-                        let list = if stall { &mut rem.bg } else { &mut rem.acts };
-                        list.push(tokio::spawn(async move {
-                            let Ok(mut s) = ctl.open_stream().await else { return };
-                            if stall {
-                                let _ = s.write_all(b"\x13/multistream/1.0.0\n").await;
-                                let _ = s.flush().await;
-                                tokio::time::sleep(Duration::from_secs(60)).await;
-                                drop(s);
-                            } else {
-                                let neg = negotiate(tr, s, true, vec![name]).await;
-                                tokio::time::sleep(Duration::from_millis(60)).await;
-                                drop(neg);
+                        if mask & 2 != 0 {
+                            for h in rem.acts.drain(..).chain(rem.bg.drain(..)) {
+                                h.abort();
                             }
-                        }));
+                            rem.driver.abort();
+                            rem.up = false;
+                            for _ in 0..3 {
+                                turn().await;
+                            }
+                        }
                     }
                 }
                 3 => {
@@ -618,12 +654,6 @@ pub fn run_loop(case: &mut [u64]) -> Vec<u64> {
                 }
                 _ => rc = 2,
             }
-            if racing {
-                // let R's stream reach A's socket while the loop is not polled
-                for _ in 0..6 {
-                    turn().await;
-                }
-            }
             // with a full channel: what has happened before it is drained?
             let (mut early_done, mut early_mgr) = (0u64, 0u64);
             if let Some(p) = fill {
@@ -669,6 +699,15 @@ pub fn run_loop(case: &mut [u64]) -> Vec<u64> {
     result.unwrap_or(vec![0])
 }
 
+/// Which things happen at once in a race (bit 0 force-close, 1 the remote closes, 2 every handle dropped,
+/// 3 inbound substream — only together with bit 2); 0 = 12.
+fn race_mask(rng: &mut Rng, hold: bool) -> u64 {
+    if hold {
+        return 0;
+    }
+    rng.pick(&[0u64, 0, 1, 2, 3, 4, 5, 6, 7, 12, 13, 14, 15])
+}
+
 /// Scenario generator: mostly short lives of one connection with every termination cause, with
 /// protocols that have exited before or during, with full channels at the moment of the exit.
 pub fn gen_loop(rng: &mut Rng, transports: &[u64]) -> Vec<u64> {
@@ -691,11 +730,12 @@ pub fn gen_loop(rng: &mut Rng, transports: &[u64]) -> Vec<u64> {
         let fill = if rng.chance(25) { 1 + rng.below(n) } else { 0 };
         let o = if last && r < 70 {
             // a termination cause at the end
-            match rng.below(5) {
+            match rng.below(6) {
                 0 => [3, p, 0, fill, 0],
                 1 => [7, 0, rng.below(2), fill, 0],
                 2 => [9, name, 0, fill, 0],
                 3 => [7, 0, 1, fill, 0],
+                4 => [9, name, race_mask(rng, hold), fill, 0],
                 _ => [9, name, 0, 0, 0],
             }
         } else if r < 22 {
@@ -731,7 +771,7 @@ pub fn gen_loop(rng: &mut Rng, transports: &[u64]) -> Vec<u64> {
         } else if r < 94 {
             [7, 0, rng.below(2), fill, 0]
         } else {
-            [9, name, 0, fill, 0]
+            [9, name, race_mask(rng, hold), fill, 0]
         };
         ops.push(o);
     }
